@@ -9,6 +9,7 @@ import Hive.Gen.C04_Calls
 import Hive.Gen.C04_Skel
 import Hive.Gen.C04_Wrap
 import Hive.Proofs.KVMapSrc
+import Hive.Gen.C04_Sync
 /-!
 # C04 — KVStore views and wrappers obey one ordered-map contract
 
@@ -1057,6 +1058,45 @@ example : mexec selfTbl (env0 [9] [[1], [2]] .fwd 0) src_mapdb_mapDB_Set ⟨⟨[
   decide
 
 end MapdbSource
+
+/-! ## the map primitives are derived from the source (`Hive/Gen/C04_Sync.lean`, `Hive/Model/KVSyncSrc.lean`) -/
+
+section SyncedMapSource
+open SyncSrc Hive.Gen.C04Sync
+
+/-- **`syncedKVMap`, derived from its source**: the generated bodies of `has`, `get`, `set`, `delete`, `deletePrefix`, `iterate`,
+`iterateKeys` (`kvstore/mapdb/synced_map.go`, translated on every run by `harness/c04/sgen`), interpreted over a Go map `m`, are
+the primitives the model is built from — `(aget k m).isSome`, `aget k m` (a copy), `aset k v m` (a copy), `adel k m`,
+`adelPfx p m`, and for the iterations exactly the pipeline of `iterAll` / `iterKeysAll`: snapshot of the entries whose key has
+prefix `realm ‖ keyPrefix` (values copied), the keys sorted in the requested direction, `len(realm)` bytes stripped, the value
+looked up in the snapshot, the consumer called until it returns false (`stopAfter`).  These are the very functions the
+interpreter of `mapdb.go` (`MapSrc.mapPrim`) uses for `s.m.get / has / set / delete / deletePrefix / iterate / iterateKeys`, so
+together with `C04_mapdb_model_is_the_source` the whole of `kvstore/mapdb` is derived; what stays primitive is the Go map,
+`strings.HasPrefix`, the byte-slice copies, `utils.SortSlice`. -/
+theorem C04_synced_map_model_is_the_source (m : AList) (k v realm p : Bytes) (d : Dir) (n : Nat) :
+    sexec ⟨k, v, d, n⟩ src_mapdb_syncedKVMap_has (SS.init m) = some (.bool (aget k m).isSome) ∧
+    sexec ⟨k, v, d, n⟩ src_mapdb_syncedKVMap_get (SS.init m) = some (.got (aget k m)) ∧
+    sexec ⟨k, v, d, n⟩ src_mapdb_syncedKVMap_set (SS.init m) = some (.done (aset k v m)) ∧
+    sexec ⟨k, v, d, n⟩ src_mapdb_syncedKVMap_delete (SS.init m) = some (.done (adel k m)) ∧
+    sexec ⟨p, v, d, n⟩ src_mapdb_syncedKVMap_deletePrefix (SS.init m) = some (.done (adelPfx p m)) ∧
+    sexec ⟨realm, p, d, n⟩ src_mapdb_syncedKVMap_iterate (SS.init m) = some (.calls (stopAfter n (iterAll realm p d m))) ∧
+    sexec ⟨realm, p, d, n⟩ src_mapdb_syncedKVMap_iterateKeys (SS.init m) = some (.keyCalls (stopAfter n (iterKeysAll realm p d m))) := by
+  refine ⟨?_, ?_, ?_, ?_, ?_, ?_, ?_⟩
+  · simp [sexec, SS.init, src_mapdb_syncedKVMap_has]
+  · simp [sexec, SS.init, src_mapdb_syncedKVMap_get]
+    cases aget k m <;> simp
+  · simp [sexec, SS.init, src_mapdb_syncedKVMap_set]
+  · simp [sexec, SS.init, src_mapdb_syncedKVMap_delete]
+  · simp [sexec, SS.init, src_mapdb_syncedKVMap_deletePrefix, adelPfx]
+  · simp [sexec, SS.init, src_mapdb_syncedKVMap_iterate, iterAll, snapshot]
+  · simp [sexec, SS.init, src_mapdb_syncedKVMap_iterateKeys, iterKeysAll, snapshot, List.map_map, Function.comp_def]
+
+/-- The derivation composes with a concrete map: a backward iteration over realm `[9]`, prefix `[1]`, stopped after one call. -/
+example : sexec ⟨[9], [1], .bwd, 1⟩ src_mapdb_syncedKVMap_iterate (SS.init [([9, 1, 0], [7]), ([8], [6]), ([9, 1, 5], [5]), ([9, 2], [4])]) =
+    some (.calls [([1, 5], [5])]) := by
+  decide
+
+end SyncedMapSource
 
 /-! ## regenerated facts about the source (`Hive/Gen/C04_Calls.lean`, `Hive/Gen/C04_Skel.lean`)
 
